@@ -422,6 +422,12 @@ Proof.
   - reflexivity.
 Qed.
 
+(* the same statement under the name the property wiring looks for *)
+Theorem DecodeAddress_tie fuel s : (63 <= fuel)%nat ->
+  da_rel (decode_address P ec_parse net reg_pkh reg_sh s) (gDecodeAddress fuel s dn).
+Proof. exact (DecodeAddress_rel fuel s). Qed.
+
+
 End Net.
 
 (* ---------- the statement, spelled out ---------- *)
@@ -488,6 +494,7 @@ Proof. reflexivity. Qed.
 End DecodeTie.
 
 Print Assumptions DecodeAddress_rel.
+Print Assumptions DecodeAddress_tie.
 Print Assumptions DecodeAddress_ok.
 Print Assumptions DecodeAddress_err.
 Print Assumptions DecodeAddress_panic.
